@@ -241,11 +241,21 @@ def sp_ignore(r, trait, shorthand=True):
     return pick(r, l)
 def sp_ignore_with_method(r, trait, path):
     """an ignored field that ALSO names a method: the field stays ignored"""
-    ps = [pick(r, ['ignore', 'ignore = true', 'ignore(true)']), pick(r, ['method(%s)', 'method = %s', 'method = "%s"']) % path]
+    ps = [pick(r, ['ignore', 'ignore = true', 'ignore(true)']), pick(r, ['method(%s)', 'method = %s', 'method = "%s"', 'method("%s")']) % sp_path(r, path)]
     r.shuffle(ps)
     return '%s(%s)' % (trait, ', '.join(ps))
+def sp_path(r, path):
+    """another way to name the same user method: longer paths, explicit generic arguments"""
+    c = r.random()
+    if c < 0.6:
+        return path
+    if c < 0.7:
+        return 'self::' + path
+    if c < 0.85 or path not in ('m_eq', 'm_cmp', 'm_pcmp', 'm_hash', 'm_fmt'):
+        return 'crate::support::' + path
+    return 'crate::support::g::%s::<0, %s>' % (path, '_, _' if path == 'm_hash' else '_')
 def sp_method(r, trait, path):
-    return pick(r, ['%s(method(%s))', '%s(method = %s)', '%s(method = "%s")', '%s(method("%s"))']) % (trait, path)
+    return pick(r, ['%s(method(%s))', '%s(method = %s)', '%s(method = "%s")', '%s(method("%s"))']) % (trait, sp_path(r, path))
 def sp_rank(r, n):
     l = ['rank = %d' % n, 'rank(%d)' % n, 'rank = "%d"' % n, 'rank("%d")' % n]
     if n >= 0:
@@ -462,7 +472,7 @@ class OrdSuite(Suite):
                             elif k == 'noignore':
                                 ps.append(pick(r, ['ignore = false', 'ignore(false)']))
                             elif k == 'method':
-                                ps.append(pick(r, ['method(%s)', 'method = %s', 'method = "%s"']) % val)
+                                ps.append(pick(r, ['method(%s)', 'method = %s', 'method = "%s"', 'method("%s")']) % sp_path(r, val))
                             else:
                                 ps.append(sp_rank(r, val))
                         r.shuffle(ps)
@@ -590,7 +600,7 @@ class DebugSuite(Suite):
                         continue
                     if c < 0.45 and not f.ft.native:
                         meth = True
-                        ps.append(pick(r, ['method(m_fmt)', 'method = m_fmt', 'method = "m_fmt"']))
+                        ps.append(pick(r, ['method(%s)', 'method = %s', 'method = "%s"', 'method("%s")']) % sp_path(r, 'm_fmt'))
                     if named and r.random() < 0.3:
                         key = 'k%d' % i
                         ps.append(pick(r, ['name = k%d', 'name(k%d)', 'name = "k%d"', 'rename = k%d', 'rename("k%d")']) % i)
@@ -806,6 +816,12 @@ class DefaultSuite(Suite):
         checks = ['let g = <T as ::core::default::Default>::default(); let e = o_default(); out.check(show(&g) == show(&e), "%s", "default", || format!("default() = {} expected {}", show(&g), show(&e)));' % tid]
         if new:
             checks.append('let g = T::new(); let e = o_default(); out.check(show(&g) == show(&e), "%s", "new", || format!("new() = {} expected {}", show(&g), show(&e)));' % tid)
+            if t.kind != 'union' and r.random() < 0.4:
+                # the derive site has an inherent `default` of its own: `new()` must still be the trait's value
+                wv = pick(r, t.variants)
+                wrong = build(t, wv, [(f.ft.defs[-1][1] if f.ft.defs else f.ft.dflt) for f in wv.fields])
+                if wrong != expected:
+                    fns.append('impl T { pub fn default() -> T { %s } }' % wrong)
         xops = []
         if xscope and texpr is None:
             t.xvalues = []
@@ -901,6 +917,8 @@ class IntoSuite(Suite):
                   "::core::option::Option<&'static A<2>>": FT("::core::option::Option<&'static A<2>>", ['None', 'Some(&A(1))'])}
         targets = r.sample(cands, ntargets)
         exact = lambda tg: tg.startswith('A') or tg in exotic
+        # a reference target may be written without its (mandatory) 'static: educe reads `&T` as `&'static T`
+        spell = lambda tg: tg.replace("&'static ", '&') if (tg.startswith('&') and r.random() < 0.4) else tg      # outermost reference only
         oracle = {}
         for v in t.variants:
             if not v.fields:
@@ -940,9 +958,9 @@ class IntoSuite(Suite):
                         meth = True
                         f.at.setdefault('_metas', []).append(pick(r, ['Into(%s, method(m_into))', 'Into(%s, method = m_into)', 'Into(%s, method = "m_into")']) % tg)
                     else:
-                        f.at.setdefault('_metas', []).append('Into(%s)' % tg)
+                        f.at.setdefault('_metas', []).append('Into(%s)' % spell(tg))
                 oracle[(tg, v.name)] = (i, meth)
-        ta = ['Into(%s)' % tg for tg in targets]
+        ta = ['Into(%s)' % spell(tg) for tg in targets]
         if r.random() < 0.5:
             t.type_attrs = [', '.join(ta)]
         else:
@@ -1105,6 +1123,8 @@ class BoundsSuite(Suite):
                 if deleg:
                     needed.add(f.param)
         tparam = []
+        if mode == 'auto' and r.random() < 0.3:
+            tparam = [pick(r, ['bound = true', 'bound(true)'])]        # the automatic mode, written out
         if mode == 'all':
             tparam = ['bound(*)']; needed = set(params)
         elif mode == 'custom':
@@ -1217,7 +1237,10 @@ GEN_TRAITS = {
     'PartialOrd': ('::core::cmp::PartialOrd', 'let _ = ::core::cmp::PartialOrd::partial_cmp(&x, &x);'),
     'Into': (None, 'let _: u8 = ::core::convert::Into::into(x);'),
     'Deref': (None, 'let _: &u8 = ::core::ops::Deref::deref(&x);'),
-    'Default': ('::core::default::Default', 'let _ = <T<\'static, Good, 2> as ::core::default::Default>::default();'),
+    'Default': ('::core::default::Default', 'let _ = <INST as ::core::default::Default>::default();'),
+    'Eq': (None, 'fn is_eq<E: ::core::cmp::Eq>(_: &E) {} is_eq(&x);'),
+    'Ord': ('::core::cmp::Ord', 'let _ = ::core::cmp::Ord::cmp(&x, &x);'),
+    'Copy': (None, 'let y = x; let z = x; let _ = (&y, &z);'),
 }
 class GenericsSuite(Suite):
     name = 'generics'
@@ -1227,10 +1250,19 @@ class GenericsSuite(Suite):
         extra = pick(r, [None, None, 'Into', 'Deref', 'Default'])
         if 'PartialOrd' in traits and 'PartialEq' not in traits:
             traits.append('PartialEq')
-        if extra and not (extra == 'Default' and kind == 'enum'):
+        # companions
+        if 'PartialEq' in traits and r.random() < 0.4:
+            traits.append('Eq')
+            if 'PartialOrd' in traits and r.random() < 0.6:
+                traits.append('Ord')
+        if 'Clone' in traits and r.random() < 0.3 and extra != 'Default':
+            traits.append('Copy')
+        if extra:
             traits.append(extra)
         where = pick(r, ['where X: Mk', 'where X: Mk,', 'where X: Mk, [X; N]: Sized', ''])
-        header = pick(r, ["<'a, X: 'a + Copy, const N: usize>", "<'a, X: 'a + Copy, const N: usize>", "<'a, X: 'a + Copy = Good, const N: usize = 2>"])
+        header = pick(r, ["<'a, X: 'a + Copy, const N: usize>", "<'a, X: 'a + Copy, const N: usize>", "<'a, X: 'a + Copy = Good, const N: usize = 2>",
+                          "<'a, const N: usize, X: 'a + Copy>"])
+        inst = "T<'static, 2, Good>" if header.startswith("<'a, const") else "T<'static, Good, 2>"
         hyg = r.random() < 0.3      # parameters named like the identifiers templates pick (C19)
         if hyg:
             header = header.replace('const N', 'const __H').replace('X', '__H_')
@@ -1252,6 +1284,7 @@ class GenericsSuite(Suite):
                 out.append('%s%s%s: %s' % (a, vis, nm, ty) if shape == 'named' else '%s%s%s' % (a, vis, ty))
             return ' { ' + ', '.join(out) + ' }' if shape == 'named' else '(' + ', '.join(out) + ')'
         markers = []
+        uses_new = [False]
         # a Debug method that needs the type's own where-clause: the wrapper impl emitted inside `fmt` must carry it too
         arr_method = None
         if 'Debug' in traits and 'X: Mk' in where and r.random() < 0.6:
@@ -1269,9 +1302,16 @@ class GenericsSuite(Suite):
                 tattrs.append('Deref')
             else:
                 bt = GEN_TRAITS[tr][0]
-                mode = pick(r, ['', '', '(bound(*))', '(bound(X: %s))' % bt, '(bound = "X: %s")' % bt])
-                if tr == 'Default' and mode == '':
+                mode = pick(r, ['', '', '(bound(*))', '(bound(X: %s))' % bt, '(bound = "X: %s")' % bt, '(bound = true)', '(bound(true))'])
+                # a companion's bound is taken from its primary: no `bound` of its own is allowed there
+                if bt is None or (tr == 'PartialOrd' and 'Ord' in traits) or (tr == 'Eq' and 'PartialEq' in traits) or (tr == 'Copy' and 'Clone' in traits):
                     mode = ''
+                if tr == 'Default' and r.random() < 0.5:
+                    inner = [mode[1:-1]] if mode else []
+                    inner.append(pick(r, ['new', 'new = true']))
+                    r.shuffle(inner)
+                    mode = '(%s)' % ', '.join(inner)
+                    uses_new[0] = True
                 tattrs.append(tr + mode)
         r.shuffle(tattrs)
         shape = pick(r, ['named', 'unnamed'])
@@ -1283,7 +1323,7 @@ class GenericsSuite(Suite):
             ctor = 'T'
         else:
             fs = fields(shape)
-            body = 'pub enum T%s %s { V%s, W%s }' % (header, where, decl_fields(shape, fs, markers), decl_fields(shape, fields(shape), markers) if 'Deref' not in traits and 'Into' not in traits else decl_fields(shape, fs, markers))
+            body = 'pub enum T%s %s { %sV%s, W%s }' % (header, where, '#[educe(Default)] ' if 'Default' in traits else '', decl_fields(shape, fs, markers), decl_fields(shape, fields(shape), markers) if 'Deref' not in traits and 'Into' not in traits else decl_fields(shape, fs, markers))
             ctor_fs = fs
             ctor = 'T::V'
         vals = {"&'a X": '&G', 'u8': '5', '[X; N]': '[Good(1), Good(2)]', 'Option<X>': 'None', 'u8': '5', "::core::marker::PhantomData<&'a X>": '::core::marker::PhantomData'}
@@ -1293,7 +1333,9 @@ class GenericsSuite(Suite):
             mk = '%s(%s)' % (ctor, ', '.join(vals[ty] for nm, ty in ctor_fs))
         uses = []
         for tr in traits:
-            uses.append('{ let x: T<\'static, Good, 2> = %s; %s }' % (mk, GEN_TRAITS[tr][1]))
+            uses.append('{ let x: %s = %s; %s }' % (inst, mk, GEN_TRAITS[tr][1].replace('INST', inst)))
+        if uses_new[0]:
+            uses.append('{ let _ = <%s>::new(); }' % inst)
         if hyg:
             body = re.sub(r"\bX\b", "__H_", body).replace('; N]', '; __H]')
             tattrs = [re.sub(r"\bX\b", "__H_", a) for a in tattrs]
@@ -1437,24 +1479,31 @@ def build_and_run(mods, max_rounds=4):
     p = subprocess.run([os.path.join(ROOT, '_build/k2target/debug/k2')], stdin=subprocess.DEVNULL, capture_output=True, text=True, timeout=600)
     return p.stdout.split('\n'), compile_fail, p.returncode
 
-def run(pid, suites, tier, seed, n=None, hostile=False, only_ops=None):
-    """-> (failures, stats).  failure: dict(key, what, type_def, detail)"""
+def meta_traits(meta):
+    return list(meta.get('traits') or []) + ([meta['trait']] if meta.get('trait') else [])
+
+def run(pid, suites, tier, seed, n=None, hostile=False, only_ops=None, also=None):
+    """-> (failures, stats).  failure: dict(key, what, type_def, detail).
+    also: [(suite, trait, n)] - types of another suite (generics / bounds) that educe `trait`; their failures count too"""
     with vlib.Lock('k2lock'):
         t0 = time.time()
         n = n or (40 if tier == 'quick' else 400)
         HOSTILE[0] = hostile
         mods, info = [], {}
-        for sname in suites:
+        plan = [(sname, None, n) for sname in suites] + [(a[0], a[1], a[2][0 if tier == 'quick' else 1]) for a in (also or [])]
+        for sname, want, cnt in plan:
             S = SUITES[sname]
-            for i in range(n):
-                tid = '%s_%d' % (S.name, i)
+            for i in range(cnt):
+                tid = '%s_%d' % (S.name, i) if want is None else '%s_%s_%d' % (S.name, want.lower(), i)
                 res, k = None, 0
-                while res is None:
+                while res is None or (want is not None and want not in meta_traits(res[2]) and k < 60):
                     r = random.Random('k2-%s-%d-%d-%d' % (S.name, seed, i, k))
                     NOISE[0] = (S.name, random.Random('k2n-%s-%d-%d-%d' % (S.name, seed, i, k)))
                     res = S.make(r, tid)
                     k += 1
                 t, src, meta = res
+                if want is not None and want not in meta_traits(meta):
+                    continue
                 mods.append((tid, src))
                 info[tid] = (t, src, meta)
         HOSTILE[0] = False
@@ -1488,6 +1537,8 @@ def run(pid, suites, tier, seed, n=None, hostile=False, only_ops=None):
         for tid, (t, src, meta) in info.items():
             if t is None or not meta.get('xops') or getattr(t, 'xvalues', None) is None or t.kind == 'union':
                 continue
+            if '::<' in type_decl(t):
+                continue        # method paths with generic arguments are outside the model's domain (Syn.v: OutOfDomain); oracle only
             for op in meta['xops']:
                 if (tid, op) in real_res:
                     try:
